@@ -195,3 +195,36 @@ package handler
 //@   ensures [first-status-wins] !old(tw.timedOut) && !old(tw.wroteHeader) ==> tw.wroteHeader && tw.code == code
 //@   ensures [later-or-late-ignored] old(tw.timedOut) || old(tw.wroteHeader) ==> tw.code == old(tw.code) && tw.wroteHeader == old(tw.wroteHeader)
 //@   ensures [never-the-real-writer] calls(tw.w.WriteHeader) == 0
+
+// ---------------- encrypted bodies (C04: the signature gate hands encrypted requests to CryptoHandler) ----------------
+// A body that does not decrypt under the key never reaches the handler (400); the handler always writes into the
+// buffering writer, and whatever it wrote is flushed - encrypted under the same key - exactly once.
+//@ func CryptoHandler$1$1
+//@   prop C04
+//@   opaque newCryptoResponseWriter, decryptBody, flush
+//@   ensures [undecryptable-body-never-reaches-the-handler] r.ContentLength > 0 && ret(decryptBody) != nil ==> calls(next.ServeHTTP) == 0 && calls(w.WriteHeader, 400) == 1
+//@   ensures [decrypted-with-the-gate-key] r.ContentLength > 0 ==> calls(decryptBody, key, r) == 1
+//@   ensures [no-body-nothing-to-decrypt] r.ContentLength <= 0 ==> calls(decryptBody) == 0 && calls(next.ServeHTTP) == 1
+//@   ensures [handler-writes-into-the-buffering-writer] calls(next.ServeHTTP) <= 1 && (calls(next.ServeHTTP) == 1 ==> typeis(arg(next.ServeHTTP, 0), ptr(cryptoResponseWriter)) && unbox(arg(next.ServeHTTP, 0), ptr(cryptoResponseWriter)) == ret(newCryptoResponseWriter) && arg(next.ServeHTTP, 1) == r)
+//@   ensures [flushed-once-under-the-same-key] calls(flush) == 1 && arg(flush, 0) == ret(newCryptoResponseWriter) && arg(flush, 1) == key && arg(newCryptoResponseWriter, 0) == w
+// decryptBody: at most 1 MiB; the declared length is read in full; base64, then ECB under the key; the request body
+// is replaced only by the decrypted bytes, and left alone on every error.
+//@ func decryptBody
+//@   prop C04
+//@   opaque EcbDecrypt
+//@   requires r != nil
+//@   ensures [oversize-rejected-unread] r.ContentLength > 1048576 ==> result == errContentLengthExceeded && calls(io.ReadFull) == 0 && calls(io.ReadAll) == 0 && r.Body == old(r.Body)
+//@   ensures [declared-length-read-in-full] r.ContentLength > 0 && r.ContentLength <= 1048576 ==> calls(io.ReadFull) == 1 && arg(io.ReadFull, 0) == old(r.Body) && len(arg(io.ReadFull, 1)) == r.ContentLength
+//@   ensures [read-error] calls(io.ReadFull) == 1 && ret(io.ReadFull, 1) != nil ==> result == ret(io.ReadFull, 1) && r.Body == old(r.Body)
+//@   ensures [bad-base64] calls(DecodeString) == 1 && ret(DecodeString, 1) != nil ==> result == ret(DecodeString, 1) && calls(EcbDecrypt) == 0 && r.Body == old(r.Body)
+//@   ensures [bad-ciphertext] calls(EcbDecrypt) == 1 && ret(EcbDecrypt, 1) != nil ==> result == ret(EcbDecrypt, 1) && r.Body == old(r.Body)
+//@   ensures [decoded-then-decrypted-under-the-key] result == nil ==> calls(DecodeString) == 1 && calls(codec.EcbDecrypt) == 1 && arg(codec.EcbDecrypt, 0) == key && arg(codec.EcbDecrypt, 1) == ret(DecodeString, 0) && calls(Write) == 1 && arg(Write, 1) == ret(codec.EcbDecrypt, 0) && r.Body == ret(io.NopCloser)
+// flush: nothing for an empty buffer; an encryption failure is a 500 with nothing written; otherwise the base64 of
+// the ciphertext of exactly the buffered bytes goes to the underlying writer, once.
+//@ func (*cryptoResponseWriter).flush
+//@   prop C04
+//@   opaque EcbEncrypt, Errorf
+//@   requires w != nil && w.buf != nil
+//@   ensures [empty-buffer-writes-nothing] ret(Len) == 0 ==> calls(EcbEncrypt) == 0 && calls(io.WriteString) == 0 && calls(WriteHeader) == 0
+//@   ensures [encryption-failure-is-500] calls(EcbEncrypt) == 1 && ret(EcbEncrypt, 1) != nil ==> calls(w.ResponseWriter.WriteHeader, 500) == 1 && calls(io.WriteString) == 0
+//@   ensures [ciphertext-of-the-buffer-written-once] calls(EcbEncrypt) == 1 && ret(EcbEncrypt, 1) == nil ==> arg(codec.EcbEncrypt, 0) == key && arg(codec.EcbEncrypt, 1) == ret(Bytes) && calls(io.WriteString) == 1 && arg(io.WriteString, 1) == ret(EncodeToString) && arg(EncodeToString, 1) == ret(codec.EcbEncrypt, 0) && arg(io.WriteString, 0) == w.ResponseWriter
